@@ -82,9 +82,35 @@ class _RecordBatch(object):
 UNMODELLED = []     # keyword arguments the stub does not model: a harness that sees any must answer 'inconclusive', never 'violation'
 
 
+class _Table(object):
+    @staticmethod
+    def from_batches(batches, schema=None):
+        """documented: a table holding the rows of the record batches, in order"""
+        batches = list(batches)
+        sch = schema if schema is not None else (batches[0].schema if batches else None)
+        ncol = len(sch.names) if sch is not None else 0
+        cols = []
+        for c in range(ncol):
+            data = []
+            for b in batches:
+                data = data + list(b.arrays[c].data)
+            cols.append(FArray(data))
+        return FBatch(cols, sch)
+
+
 class _FakePA(object):
     RecordBatch = _RecordBatch
     Schema = FSchema
+    Table = _Table
+
+    @staticmethod
+    def concat_arrays(arrays, **kw):
+        for k in kw:
+            UNMODELLED.append('pa.concat_arrays(%s=...)' % k)
+        data = []
+        for a in arrays:
+            data = data + list(a.data)
+        return FArray(data)
 
     def __getattr__(self, name):
         UNMODELLED.append('pa.' + name)
@@ -143,6 +169,9 @@ class _Writer(object):
 
     def write_batch(self, batch, row_group_size=None):
         self.write(batch, row_group_size)
+
+    def write_table(self, table, row_group_size=None):
+        self.write(table, row_group_size)
 
     def close(self):
         self.closed = True
@@ -217,6 +246,18 @@ def validate():
         fake = shape(FakePA.array(cells, type=None, from_pandas=fp).to_pylist())
         if real != fake:
             return 'pa.array(from_pandas=%s): real %r, fake %r' % (fp, real, fake)
+    # concat_arrays / Table.from_batches: the elements / rows of the parts, in order
+    ra = pa.concat_arrays([pa.array([1, 2]), pa.array([], type=pa.int64()), pa.array([3])]).to_pylist()
+    fa = FakePA.concat_arrays([FakePA.array([1, 2]), FakePA.array([]), FakePA.array([3])]).to_pylist()
+    if ra != fa:
+        return 'concat_arrays: real %r, fake %r' % (ra, fa)
+    rsch = pa.schema([('a', pa.int64()), ('b', pa.string())])
+    rb = [pa.RecordBatch.from_arrays([pa.array([1, 2]), pa.array(['x', 'y'])], schema=rsch), pa.RecordBatch.from_arrays([pa.array([3]), pa.array(['z'])], schema=rsch)]
+    fsch = FSchema(['a', 'b'])
+    fb = [FakePA.RecordBatch.from_arrays([FakePA.array([1, 2]), FakePA.array(['x', 'y'])], schema=fsch), FakePA.RecordBatch.from_arrays([FakePA.array([3]), FakePA.array(['z'])], schema=fsch)]
+    rt, ft = pa.Table.from_batches(rb, schema=rsch), FakePA.Table.from_batches(fb, schema=fsch)
+    if rt.to_pylist() != ft.to_pylist() or rt.num_rows != ft.num_rows:
+        return 'Table.from_batches: real %r, fake %r' % (rt.to_pylist(), ft.to_pylist())
     grid = [(0, 3), (1, 1), (3, 1), (4, 2), (5, 2), (6, 3), (7, 3), (3, 10), (2048, 1024), (5000, 999)]
     for n, bs in grid:
         rows = [dict(a=i, b='s%d' % (i % 13)) for i in range(n)]
